@@ -125,7 +125,7 @@ def apply_op(w, op):
         _k, s = op
         try:
             w.pop.remove_person(nid(SUBJECTS[s]))
-        except KeyError:
+        except Exception:            # which exception an unknown subject gets is not specified
             if s in ref:
                 return ['delete-of-known-subject-raised']
         ref.pop(s, None)
